@@ -458,6 +458,18 @@ def run(ctx, prog):
         k = sum(1 for x in ctx.instances if x.get('config') == ctx.config and x['rule'] == 'C04.R1' and x['key'].startswith('C04.R1 | %s | merge' % b.short.split('::{')[0]))
         ctx.inst('C04.R1', b.short.split('::{')[0], 'merge #%d gets validated hot candidates' % k, ok, 'hot operand: %s' % r[:160])
     ctx.floor('C04.R1', 'merge_knn_results call sites', n_merge, 3, 'single, batch, timed')
+    # … and stay what the filter returned: no mutable borrow of a filter result is used at all (vec_pushes census over the filter call taken as the vector's producer:
+    # a push, extend, insert, index_mut, helper, closure capture or stored borrow between the filter and the merge would add or replace candidates after validation).
+    n_f = 0
+    for c in prog.callers_of('TieredEngine::filter_hot_knn_results_to_canonical'):
+        n_f += 1
+        ps = vec_pushes(c.body, c, harmless=(r'(^|::)Vec(<.*>)?::(truncate|retain|retain_mut|clear|pop|shrink_to_fit|shrink_to|dedup|dedup_by|dedup_by_key)$',))   # can only drop candidates
+        k = sum(1 for x in ctx.instances if x.get('config') == ctx.config and x['rule'] == 'C04.R1' and
+                x['key'].startswith('C04.R1 | %s | validated hot candidates #' % c.body.short.split('::{')[0]))
+        ctx.inst('C04.R1', c.body.short.split('::{')[0], 'validated hot candidates #%d are not modified after validation' % k, ps == [],
+                 'filter call at %s: %s' % (c.loc, 'no mutable borrow of its result' if ps == [] else 'its result is pushed to' if ps else
+                                            'a mutable borrow of its result is used (extend / insert / index_mut / helper / closure / stored)'))
+    ctx.floor('C04.R1', 'filter_hot_knn_results_to_canonical call sites', n_f, 3, 'single, batch, timed')
     hk = sorted(set(c.body.short.split('::{')[0] for c in prog.callers_of('HotTier::knn_search', 'HotTier::knn_search_with_cancel') if 'hot_tier::' not in c.body.id))
     want = ['tiered_engine::TieredEngine::knn_search_batch_with_ef_detailed_scoped', 'tiered_engine::TieredEngine::knn_search_with_ef_detailed_scoped',
             'tiered_engine::TieredEngine::knn_search_with_timeouts_with_ef_scoped']
